@@ -10,8 +10,7 @@ from .common import scratch
 
 def write_data_module(dirpath: Path, name: str, defs: dict, extends: str = "") -> None:
     lines = [f"---- MODULE {name} ----"]
-    if extends:
-        lines.append(f"EXTENDS {extends}")
+    lines.append(f"EXTENDS {extends or 'TLC'}")
     for k, v in defs.items():
         lines.append(f"{k} == {v if isinstance(v, RawTla) else tlaval.to_tla(v)}")
     lines.append("====")
